@@ -1,5 +1,5 @@
 (* Props/C06.v — writes reach the transport complete, contiguous and in order. *)
-Require Import Base.Bytes Net.Frame Net.FrameProofs Net.Framed Net.FramedProofs.
+Require Import Base.Bytes Net.Frame Net.FrameProofs Net.Framed Net.FramedProofs Net.ConvProofs Net.Async Net.AsyncProofs Net.AsyncConvProofs.
 Local Open Scope N_scope.
 
 (* whatever the acceptance pattern (any k >= 1 bytes per call, any number of not-ready turns),
@@ -27,6 +27,36 @@ Proof. exact write_seq_contiguous. Qed.
 Theorem c06_written_unit_is_one_frame : forall packet unparse m (p : packet) fr,
   encode packet unparse m p = Ok fr -> wf_frame m fr /\ (Nat.modulo (length fr) (mul m) = 0)%nat.
 Proof. exact encode_wf. Qed.
+
+(* conversations: what the write() calls of a conversation put on the wire is their frames, whole and in
+   call order, whatever the reads in between do *)
+Theorem c06_conversation_writes :
+  forall (packet : Type) (parse : bytes -> res packet) (ver_of : packet -> option N)
+         (is_keepalive : packet -> bool) (version : N) (m : mode) (verify : bool) (pong : bytes),
+  forall ops buf tr,
+    exists rest, map snd (filter (from_write packet) (conv packet parse ver_of is_keepalive version m verify pong ops buf tr)) ++ rest
+                 = map Wrote (frames_of ops).
+Proof. exact conv_writes. Qed.
+
+(* tokio, with read() futures dropped at any pending polls and writes in between: a write() first completes an
+   outstanding keep-alive reply, then sends its frame; so the wire carries whole frames only (conv_ok), and the
+   caller's frames leave in call order *)
+Theorem c06_writes_never_split_a_reply :
+  forall (packet : Type) (parse : bytes -> res packet) (ver_of : packet -> option N)
+         (is_keepalive : packet -> bool) (version : N) (m : mode) (verify : bool) (pong : bytes),
+  forall fuel c s rs ws cancels wsched acc done,
+    forallb no_fail ws = true ->
+    Inv packet parse ver_of is_keepalive version m verify pong c s ->
+    WInv packet is_keepalive pong s (done ++ acc) ->
+    conv_ok packet is_keepalive pong done (aconv packet parse ver_of is_keepalive version m verify pong fuel c s rs ws cancels wsched acc).
+Proof. exact aconv_ok. Qed.
+
+Theorem c06_caller_frames_in_call_order :
+  forall (packet : Type) (parse : bytes -> res packet) (ver_of : packet -> option N)
+         (is_keepalive : packet -> bool) (version : N) (m : mode) (verify : bool) (pong : bytes),
+  forall fuel c s rs ws cancels wsched acc,
+    is_prefix (flat_map (user_frame packet) (aconv packet parse ver_of is_keepalive version m verify pong fuel c s rs ws cancels wsched acc)) (concat wsched).
+Proof. exact aconv_user_frames. Qed.
 
 Example c06_example :
   write_all [WPending; WAccept 0; WPending; WAccept 1; WAccept 9] [1;3;0;0] = ([1;3;0;0], WOk, []).
